@@ -16,7 +16,7 @@ def plans(tier):
                 dict(gens="spiral", variants="base", n=60, W=8, nmax=10, bias=0.4, seed=s + 4),
                 dict(gens="court", variants="base", n=250, W=6, nmax=10, bias=0.4, seed=s + 6),
                 # holes 2-4 pixels wide, two out of three inside the bounding box of one sloped shell edge: a filled hole shows beyond a pixel from every boundary
-                dict(gens="courtbig", variants="base", n=400, W=16, nmax=10, bias=0.4, seed=s + 8),
+                dict(gens="courtbig", variants="base", n=800, W=16, nmax=10, bias=0.4, seed=s + 8),
                 dict(gens="rect", variants="base", n=400, W=12, nmax=10, bias=0.4, seed=s + 7),
                 dict(gens="star,hole", variants="base", n=4000, W=3, nmax=20, bias=0.9, seed=s + 5)]     # dense: nearly every pixel of the window occupied
     return [dict(gens="star,hole,collapse,rect", variants="base", n=16000, W=8, nmax=16, bias=0.5, seed=s),
